@@ -17,11 +17,18 @@ Requests (one s-expression per line) and replies:
   (ispermuted <rtol> <atol> <table>)                  -> true|false      table[perm][entity][point][dof]
   (subscripts <permuted> <uniform> <piecewise> <minus> (<qperm> …) <entity> <iq>) -> (qp e q)
   (reads <array> <stmt>)                              -> true|false      stmt in the export schema
+  (tablepoints <facettype> <cell> <kind> <nent> (<pt> …)) -> (((<pt> …) …) …)  [row][entity][point]: the cell
+                                                         points `buildTable` tabulates at (facettype `point` = one row)
+  (tablereads <facettype> <cell> <kind> <nent> <ndof> (<pt> …) <values> <entitytype> (<read> …)) -> (v …)
+      values[row][entity][point][dof] = tabulation at the points of `tablepoints` (looked up by point);
+      read = (<permuted> <uniform> <piecewise> plus|minus|none (<qperm> …) (<entity_local_index> …) <iq> <dof>);
+      v = tableRead (modelTable …) flags entitytype restriction qperm eli iq dof
 -/
 import FfcxModel.Driver.Loop
 import FfcxModel.IR.Perm
 import FfcxModel.Geometry.RefCell
 import FfcxModel.Generated.RefCells
+import FfcxModel.Geometry.TableRead
 import FfcxModel.LNodes.Wire
 
 open Ffcx Ffcx.Perm Ffcx.Geometry
@@ -74,6 +81,15 @@ def integralKind (s : Sexp) : Except String IntegralKind := do
   | "ridge" => .ok .ridge
   | "vertex" => .ok .vertex
   | a => .error s!"unknown integral kind {a}"
+
+/-- one `(permuted uniform piecewise restriction (qperm) (eli) iq dof)` request -/
+def tableReadReq (T : Table Rat) (et : EntityType) (s : Sexp) : Except String Sexp := do
+  match (← s.asList) with
+  | [p, u, pw, r, qperm, eli, iq, d] =>
+    let fl : TableFlags := ⟨← p.asBool, ← u.asBool, ← pw.asBool⟩
+    .ok (Sexp.ofRat (tableRead T fl et (← restriction r) (← natList qperm) (← natList eli)
+      (← iq.asNat) (← d.asNat)))
+  | _ => .error "read must be (permuted uniform piecewise restriction (qperm) (eli) iq dof)"
 
 end GeomDriver
 
@@ -141,6 +157,23 @@ def dispatch (req : Sexp) : Except String Sexp :=
       let fl : TableFlags := ⟨← p.asBool, ← u.asBool, ← pw.asBool⟩
       let s := tableSubscripts fl (← minus.asBool) (← natList qperm) (← e.asNat) (← iq.asNat)
       .ok (.list [Sexp.ofNat s.1, Sexp.ofNat s.2.1, Sexp.ofNat s.2.2])
+    | "tablepoints", [t, c, k, nent, pts] => do
+      let T := tablePoints (← facetType t) (← cell c) (← integralKind k) (← nent.asNat) (← points pts)
+      .ok (.list (T.map fun row => .list (row.map fun e => .list (e.map fun q => ofPoint (q.getD 0 [])))))
+    | "tablereads", [t, c, k, nent, ndof, pts, vals, et, reads] => do
+      let t ← facetType t
+      let c ← cell c
+      let k ← integralKind k
+      let nent ← nent.asNat
+      let pts ← points pts
+      let P := (tablePoints t c k nent pts).flatMap fun row => row.flatMap fun e => e.map fun q => q.getD 0 []
+      let V := (← table vals).flatMap fun row => row.flatMap id
+      if P.length != V.length then
+        .error s!"tablereads: {P.length} points but {V.length} value rows"
+      else
+        let T := modelTable t c k nent (← ndof.asNat) pts (P.zip V)
+        let et ← entityType et
+        .ok (.list (← (← reads.asList).mapM (tableReadReq T et)))
     | "reads", [a, s] => do
       let a ← a.asAtom
       let st ← LNodes.readStmt s
